@@ -69,3 +69,52 @@ Lemma second_truncation_refuted :
 Proof.
   exists 11500000000, 1999, 10000000000. unfold old_maxTime, ns_per_s, ns_per_ms. split; [lia|]. split; vm_compute; congruence.
 Qed.
+
+(* ---- getOldestModifiedTime under listing faults ---------------------------------------- *)
+
+Lemma fold_max_ge l a : a <= fold_left Z.max l a /\ Forall (fun t => t <= fold_left Z.max l a) l.
+Proof.
+  revert a. induction l as [|x l IH]; intros a; simpl; [split; [lia|constructor]|].
+  destruct (IH (Z.max a x)) as [H1 H2]. split; [lia|]. constructor; [lia|exact H2].
+Qed.
+
+Lemma fold_max_in l a : fold_left Z.max l a = a \/ In (fold_left Z.max l a) l.
+Proof.
+  revert a. induction l as [|x l IH]; intros a; simpl; auto.
+  destruct (IH (Z.max a x)) as [H|H]; [|right; right; exact H].
+  rewrite H. destruct (Z.max_spec a x) as [[_ E]|[_ E]]; rewrite E; auto.
+Qed.
+
+(* a young partial upload — creation time in the ULID and every object's last-modified time
+   within the threshold — is never removed: for every listing outcome (complete, no times
+   reported, failed before the first object, failed after k objects) *)
+Lemma young_partial_never_deleted now ulid_t lms fault marked :
+  now - ulid_t <= PartialUploadThresholdAge ->
+  Forall (fun t => now - t <= PartialUploadThresholdAge) lms ->
+  partial_deleted_listing now ulid_t lms fault marked = false.
+Proof.
+  intros Hu Hl. unfold partial_deleted_listing, partial_deleted.
+  destruct (marked && partial_skips_marked); auto.
+  apply negb_false_iff. unfold partial_young. apply Z.leb_le.
+  unfold time_used. destruct fault as [k|].
+  - unfold oldest_time_on_error. exact Hu.
+  - cbv zeta. destruct (seen_max lms =? zero_time) eqn:E; [exact Hu|].
+    apply Z.eqb_neq in E. unfold seen_max in *. destruct (fold_max_in lms zero_time) as [H|H]; [congruence|].
+    rewrite Forall_forall in Hl. exact (Hl _ H).
+Qed.
+
+(* without a listing fault, a removal satisfies the predicate judged from the true object times *)
+Lemma listing_ok_pred t now ulid_t lms marked :
+  t <= now -> Forall (fun x => zero_time < x) lms ->
+  partial_pred_listing now ulid_t lms marked (partial_deleted_listing t ulid_t lms None marked) = true.
+Proof.
+  intros Ht Hz. destruct (partial_deleted_listing t ulid_t lms None marked) eqn:E; [|reflexivity].
+  unfold partial_deleted_listing in E. destruct (partial_only_after_threshold _ _ _ E) as [-> Hgt].
+  unfold partial_pred_listing. simpl. unfold time_used, seen_max in Hgt. cbv zeta in Hgt.
+  destruct lms as [|x r]; [simpl in Hgt; apply Z.ltb_lt; lia|].
+  destruct (fold_max_ge (x :: r) zero_time) as [_ Hall].
+  assert (Hne : fold_left Z.max (x :: r) zero_time <> zero_time).
+  { inversion Hz; subst. inversion Hall; subst. lia. }
+  apply Z.eqb_neq in Hne. rewrite Hne in Hgt.
+  apply forallb_forall. intros y Hy. rewrite Forall_forall in Hall. specialize (Hall y Hy). apply Z.ltb_lt. lia.
+Qed.
